@@ -18,14 +18,15 @@ const hugeBudget = int64(1) << 40
 const refCap = 60000 // reference runs longer than this are discarded
 
 type LimitsCase struct {
-	Mode    string   `json:"mode"` // "general" | "phys" | "nest" | "tail" | "macro" | "meter"
-	Knobs   Knobs    `json:"knobs"`
-	Forms   []*Node  `json:"forms"`
-	Forms2  []*Node  `json:"forms2,omitempty"`
-	Budgets []int64  `json:"budgets,omitempty"` // explicit budgets; empty with Sweep = every n in [1,N+2]
-	Cancels []int64  `json:"cancels,omitempty"`
-	Sweep   bool     `json:"sweep,omitempty"`
-	Picks   []uint64 `json:"picks,omitempty"` // sampled placements, reduced modulo N / polls at run time
+	Mode         string   `json:"mode"` // "general" | "phys" | "nest" | "tail" | "macro" | "meter"
+	Knobs        Knobs    `json:"knobs"`
+	Forms        []*Node  `json:"forms"`
+	Forms2       []*Node  `json:"forms2,omitempty"`
+	Budgets      []int64  `json:"budgets,omitempty"` // explicit budgets; empty with Sweep = every n in [1,N+2]
+	Cancels      []int64  `json:"cancels,omitempty"`
+	Sweep        bool     `json:"sweep,omitempty"`
+	EmptyBetween bool     `json:"empty_between,omitempty"` // an empty / comment-only load happens between P and P2
+	Picks        []uint64 `json:"picks,omitempty"`         // sampled placements, reduced modulo N / polls at run time
 	// structural modes
 	Depth  int  `json:"depth,omitempty"`   // recursion depth / nesting depth / loop turns / expansions
 	MaxLim int  `json:"max_lim,omitempty"` // sweep the limit over [1,MaxLim]
@@ -121,6 +122,7 @@ func (limitsEngine) Gen(r *Rand, tier string) any {
 		c.Forms2 = []*Node{g2.Probe(g2.E(3))}
 		c.Knobs.Stdlib = r.Chance(1, 10)
 		c.Knobs.TRO = PickStr(r, []string{"", "", "debugger", "profiler"})
+		c.EmptyBetween = r.Chance(1, 4)
 		if r.Chance(1, 4) { // swarm: small structural limits
 			if r.Bool() {
 				c.Knobs.MaxPhys = r.Range(3, 20)
@@ -573,6 +575,14 @@ func (e limitsEngine) checkBudget(c *LimitsCase, st *Stats, ref *limRun, n, N in
 			return Violf("harness", "%v", err)
 		}
 		st.Runs += 2
+		if c.EmptyBetween {
+			// loads of nothing are top-level evaluations too and must not disturb the budget
+			for _, ww := range []*World{twin.w, run.w} {
+				ww.LoadString("")
+				ww.LoadString("; only a comment")
+				ww.LoadString("(ignore-errors (load-string \"\"))")
+			}
+		}
 		lisp.WithMaxSteps(hugeBudget)(twin.w.Env)
 		evFrom := len(twin.w.Events)
 		tout := twin.w.Load(c.Forms2)
